@@ -111,9 +111,38 @@ class Ctx:
                     shutil.copy(os.path.join(src, f), d)
         return d
 
-    def tlc(self, subsystem, module, cfg, name=None, workers=None, timeout=600,
-            simulate=None, depth=None, cases_to=None, expect_violation=None,
-            coverage=False, files=None, count_states=True, seed=None, dfs=False, allow_fail=False, jopts=None):
+    # TLC's value classes are not fully thread-safe: with several workers a record can, rarely, fail a field lookup
+    # for a field it prints itself ("Attempted to select nonexistent field "k" from the record [.. k |-> ..]").
+    # That is a tool failure, not a property of the specification: the run is repeated once with one worker.
+    TLC_RACE = re.compile(r'Attempted to select nonexistent field "(\w+)" from the record\s*\[[^\]]*\b\1 \|->', re.S)
+
+    def tlc(self, *a, **kw):
+        cases_to = kw.get("cases_to")
+        size0 = os.path.getsize(cases_to) if cases_to and os.path.exists(cases_to) else 0
+        n_runs, st, tr = len(self.tlc_runs), self.states, self.transitions
+        try:
+            return self._tlc_once(*a, **kw)
+        except Broken as e:
+            logp = getattr(e, "tlc_log", None)
+            txt = ""
+            try:
+                txt = open(logp).read() if logp else ""
+            except Exception:
+                pass
+            if not self.TLC_RACE.search(txt):
+                raise
+            log("TLC worker race in %s (a record failing a lookup of a field it has): repeating the run with one worker" % logp)
+            if cases_to and os.path.exists(cases_to):
+                with open(cases_to, "r+") as f:
+                    f.truncate(size0)
+            del self.tlc_runs[n_runs:]
+            self.states, self.transitions = st, tr
+            kw["workers"] = 1
+            return self._tlc_once(*a, **kw)
+
+    def _tlc_once(self, subsystem, module, cfg, name=None, workers=None, timeout=600,
+                  simulate=None, depth=None, cases_to=None, expect_violation=None,
+                  coverage=False, files=None, count_states=True, seed=None, dfs=False, allow_fail=False, jopts=None):
         """Run TLC. Returns dict(generated, distinct, depth, cases, log, violated).
 
         cases_to: path (appended) receiving one JSON text per emitted CASE line.
@@ -203,8 +232,10 @@ class Ctx:
             raise Broken("TLC timed out after %ss on %s (log %s)" % (timeout, name, logp))
         if expect_violation:
             if violated != expect_violation:
-                raise Broken("non-vacuity run %s: expected %s to be violated, got %r (log %s)"
-                             % (name, expect_violation, violated, logp))
+                e = Broken("non-vacuity run %s: expected %s to be violated, got %r (log %s)"
+                           % (name, expect_violation, violated, logp))
+                e.tlc_log = logp
+                raise e
             return info
         if allow_fail and (violated or rc != 0 or err_lines):
             # trace validation: a rejected trace is information for the caller, not a broken tool
@@ -221,7 +252,9 @@ class Ctx:
                 tail = "".join(open(logp).readlines()[-25:])
             except Exception:
                 pass
-            raise Broken("TLC failed on %s: rc=%s violated=%s errors=%s\n%s" % (name, rc, violated, err_lines[:3], tail))
+            e = Broken("TLC failed on %s: rc=%s violated=%s errors=%s\n%s" % (name, rc, violated, err_lines[:3], tail))
+            e.tlc_log = logp
+            raise e
         if count_states and not simulate:
             self.states += info["distinct"]
             self.transitions += info["generated"]
